@@ -94,6 +94,7 @@ type Sim struct {
 	disks      []*Disk
 	deadInst   map[int]bool
 	rewriting  map[int]bool // instance currently inside RewriteLog (engine.mut held)
+	writing    map[int]bool // instance whose write-commit mutex is held by some task
 	// hooks for profiles
 	OnYieldOpp func(site string, t *Task) // fault/crash opportunity at selected yield sites (every mode)
 	OnNote     func(ev string, t *Task)
@@ -139,7 +140,7 @@ func NewSim() *Sim {
 	s := &Sim{
 		tasks:     map[uint64]*Task{},
 		deadInst:  map[int]bool{},
-		rewriting: map[int]bool{},
+		rewriting: map[int]bool{}, writing: map[int]bool{},
 		copyOpen:  map[int]int{},
 		mutOpen:   map[int]int{},
 		Stats:     newStats(),
@@ -258,16 +259,24 @@ func (s *Sim) park(site string, spin bool) {
 			s.OnYieldOpp(site, t)
 		}
 	}
-	if s.passAll.Load() {
-		return
-	}
 	g := goid()
 	if g == s.ctrl {
 		return
 	}
+	// a task that would block on the write-commit mutex held by a parked task must park whatever the mode
+	// (a goroutine blocked on a sync.Mutex is not durably blocked: the bubble would never become quiescent)
+	mustPark := false
+	if site == "lock.write" {
+		s.mu.Lock()
+		mustPark = s.writing[s.taskFor(g).Inst]
+		s.mu.Unlock()
+	}
+	if s.passAll.Load() && !mustPark {
+		return
+	}
 	s.mu.Lock()
 	t := s.taskFor(g)
-	if t.Pass || (s.siteFilter != nil && !spin && !s.siteFilter(site)) || (s.siteFilter == nil && s.sites != nil && !s.sites[site] && !spin) {
+	if t.Pass && !mustPark || !mustPark && ((s.siteFilter != nil && !spin && !s.siteFilter(site)) || (s.siteFilter == nil && s.sites != nil && !s.sites[site] && !spin)) {
 		s.mu.Unlock()
 		return
 	}
@@ -347,6 +356,10 @@ func (s *Sim) hookNote(ev string) {
 		s.rewriting[inst] = true
 	case "rewrite.unlocked":
 		s.rewriting[inst] = false
+	case "write.locked":
+		s.writing[inst] = true
+	case "write.unlocked":
+		s.writing[inst] = false
 	case "statecopy.begin":
 		s.copyOpen[inst]++
 		if s.mutOpen[inst] > 0 {
@@ -437,6 +450,9 @@ func (s *Sim) ParkedTasks() []*Task {
 	for _, t := range s.tasks {
 		if !t.Parked || t.Done || s.deadInst[t.Inst] {
 			continue
+		}
+		if t.Site == "lock.write" && s.writing[t.Inst] {
+			continue // would block on the write-commit mutex held by a parked task
 		}
 		if t.Site == "rewrite.lock" && s.rewriting[t.Inst] {
 			continue // would block on engine.mut held by a parked task
@@ -587,6 +603,7 @@ func (s *Sim) KillInstance(inst int) {
 	s.mu.Lock()
 	s.deadInst[inst] = true
 	s.rewriting[inst] = false
+	s.writing[inst] = false
 	var owned []*Task
 	for _, t := range s.tasks {
 		if t.Inst == inst && t.Parked && !t.Done {
